@@ -58,7 +58,14 @@ def sealM (idx : Nat) (plain : Bytes) : Bytes := plain ++ boxTag idx
 def codec (tbl : List (Bytes × Option Bytes)) (ann : List (Bytes × Nat) := []) : Codec :=
   { enc := id, dec := fun p => match tbl.lookup p with | some r => r | none => some p,
     openBox := fun k p => if p.length ≥ 16 && p.drop (p.length - 16) == boxTag k then some (p.take (p.length - 16)) else none,
-    announced := fun p => (ann.lookup p).getD 0 }
+    -- snappy.DecodedLen: stated by the op line (`ann=`), else the length of what the payload is stated to decode to, else (the
+    -- model's own identity-coded frames) the payload length
+    announced := fun p => match ann.lookup p with
+      | some a => a
+      | none => match tbl.lookup p with
+        | some (some b) => b.length
+        | some none => 0
+        | none => p.length }
 
 structure St where
   live : Bool := false
